@@ -31,10 +31,10 @@ type c13Case struct {
 	Fail       int   `json:"failing"`   // -1 none
 	Background int   `json:"background"`
 	Desc       bool  `json:"descending_order,omitempty"`
-	Zero       int   `json:"zero_size_runners,omitempty"`     // mask over stateless (field-less) runner types Z1,Z2,Z3
-	ErrShape   int   `json:"err_shape,omitempty"`             // what kind of error value the failing runner returns (scen.Err*)
+	Zero       int   `json:"zero_size_runners,omitempty"`      // mask over stateless (field-less) runner types Z1,Z2,Z3
+	ErrShape   int   `json:"err_shape,omitempty"`              // what kind of error value the failing runner returns (scen.Err*)
 	LateOrder  bool  `json:"order_known_after_init,omitempty"` // the runners' Order() answers 0 until their Init ran
-	AppDep     int   `json:"runners_depend_on_app,omitempty"` // runners hold the App itself: 1 = named to be created before it, 2 = after it
+	AppDep     int   `json:"runners_depend_on_app,omitempty"`  // runners hold the App itself: 1 = named to be created before it, 2 = after it
 }
 
 // runners that hold the App itself (they sit on a cycle with the App's own slice of runners)
@@ -84,6 +84,21 @@ func (p *c13Scan) Init() error {
 	p.rt.Event(fmt.Sprintf("init:zscan:dep=%v", p.Dep != nil))
 	return nil
 }
+
+// ... and whose Order is only known after their Init
+type c13AppRunPI struct {
+	scen.RunPI
+	A     *app.App `wire:""`
+	early bool
+}
+type c13AppRunOI struct {
+	scen.RunOI
+	A     *app.App `wire:""`
+	early bool
+}
+
+func (r *c13AppRunPI) Naming() string { return c13AppName(r.Nm, r.early) }
+func (r *c13AppRunOI) Naming() string { return c13AppName(r.Nm, r.early) }
 
 func c13AppName(nm string, early bool) string {
 	if early {
@@ -156,6 +171,12 @@ func c13Gen(c *core.Ctx) func(yield func(c13Case) bool) {
 					if !yield(c13Case{Seq: s, Fail: -1, Desc: d, LateOrder: true}) {
 						stop = true
 						return false
+					}
+					for dep := 1; dep <= 2 && len(s) <= 2; dep++ { // ... and the runners hold the App
+						if !yield(c13Case{Seq: s, Fail: -1, Desc: d, LateOrder: true, AppDep: dep}) {
+							stop = true
+							return false
+						}
 					}
 				}
 				return true
@@ -240,6 +261,10 @@ func c13Run(c *core.Ctx) {
 				part := scen.Part{Nm: names[i], O: c12Order(s), RT: rt, Fail: i == cs.Fail}
 				lazy := cs.LazyMask>>i&1 == 1
 				switch {
+				case cs.LateOrder && cs.AppDep != 0 && c12Class(s) == 0:
+					out = append(out, &c13AppRunPI{RunPI: scen.RunPI{Part: part}, early: cs.AppDep == 1})
+				case cs.LateOrder && cs.AppDep != 0:
+					out = append(out, &c13AppRunOI{RunOI: scen.RunOI{Part: part}, early: cs.AppDep == 1})
 				case cs.LateOrder && c12Class(s) == 0:
 					out = append(out, &scen.RunPI{Part: part})
 				case cs.LateOrder:
